@@ -224,6 +224,8 @@ def check_grid(case, ctx):
             lay = vbuild.Lay(case.get("orders"))
             m_e, m_n = lay(m_e.ravel(), m_e.shape), lay(m_n.ravel(), m_n.shape)
             coords = (m_e, m_n) + tuple(lay(np.full(m_e.size, v), m_e.shape) for v in case["extra"])
+            # the meshgrid (and its extra coordinates) as one stacked array, the form in which longitude_continuity hands a grid's coordinates back
+            coords = vbuild.maybe_stack(tuple(np.asarray(c, dtype="float64") for c in coords), vbuild.stack_flag(case))
             n_extra = len(case["extra"])
         call["coordinates"] = coords
         exp_e, exp_n = ee1, nn1
